@@ -289,6 +289,13 @@ func check(in, obs string) string {
 		if strings.HasPrefix(tag, "-") {
 			return "sign succeeded on invalid input"
 		}
+		if i := strings.Index(tag, "kat-sign:"); i >= 0 {
+			// known-answer test: sha256 of the expected deterministic signature
+			h := sha256.Sum256(hx.UH(obs))
+			if hx.H(h[:]) != tag[i+len("kat-sign:"):] {
+				return "deterministic signature differs from the reference implementation's known answer"
+			}
+		}
 		sk := hx.UH(f[3])
 		pk := sk[2*p.n:]
 		ctx := hx.UH(f[5])
